@@ -80,6 +80,20 @@ Theorem tree_history_observations : forall (K V : Type) (cmp : K -> K -> compari
 Proof. exact history_observations_total. Qed.
 Print Assumptions tree_history_observations.
 
+(* what a tree shows depends only on the ordered map its history denotes: not on the history that built it, not on the
+   shape rebalancing left behind, not on the successor/predecessor choice Tree_Rem makes for a node with two children *)
+Theorem tree_history_independent : forall (K V : Type) (cmp : K -> K -> comparison) (us1 us2 : bool -> bool -> bool),
+  total_order cmp -> forall ops1 ops2 : list (op K V),
+  spec_run K V cmp ops1 [] = spec_run K V cmp ops2 [] ->
+  let t1 := t_run K V cmp us1 ops1 (t_empty K V) in
+  let t2 := t_run K V cmp us2 ops2 (t_empty K V) in
+  nitems K V t1 = nitems K V t2 /\
+  iter_forward K V t1 = iter_forward K V t2 /\
+  iter_backward K V t1 = iter_backward K V t2 /\
+  (forall k, lookup K V cmp (root K V t1) k = lookup K V cmp (root K V t2) k).
+Proof. exact history_independent_total. Qed.
+Print Assumptions tree_history_independent.
+
 (* "lookups, insertions and removals stay logarithmic": the descent of Tree_Get/Mem/Set/Rem in a valid tree visits at
    most 2*log2(len+1) nodes (integer form); Tree_Set_Fix / Tree_Rem_Fix recurse on the path this descent leaves *)
 Theorem tree_search_depth : forall (K V : Type) (cmp : K -> K -> comparison)
